@@ -129,6 +129,30 @@ func featgenCases() []packCase {
 	// ---- classes
 	add("class:field-order", "() => { class C { a = "+P("1")+"; ["+P(`"k"`)+"] = "+P("2")+"; static s = "+P("3")+"; static ["+P(`"t"`)+"] = "+P("4")+"; constructor() { $("+p()+", \"ctor\", Object.keys(this)); } } return [Object.keys(new C()), C.s, C.t]; }", false)
 	add("class:derived-field-after-super", "() => { class A { constructor() { $("+p()+", \"A\", Object.keys(this)); } } class B extends A { x = "+P("1")+"; constructor() { $("+p()+", \"before\"); super(); $("+p()+", \"after\", this.x); } } return Object.keys(new B()); }", false)
+	for i, ctor := range []string{
+		"$(%A, 1), ($(%B, 2), super());",
+		"$(%A, 1), ($(%B, 2), ($(%C, 3), super()));",
+		"($(%A, 1), $(%B, 2)), super(), $(%C, 3);",
+		"$(%A, 1), ($(%B, 2), super(), $(%C, 3));",
+		"return $(%A, 1), ($(%B, 2), super()), void 0;",
+		"if ($(%A, 1), ($(%B, 0), super())) $(%C, 3);",
+		"var q = ($(%A, 1), ($(%B, 2), super())); $(%C, q === this);",
+		"$(%A, 1) && super(); $(%B, 2);",
+		"for (var i = ($(%A, 1), ($(%B, 2), super())); false;) ; $(%C, 3);",
+		"switch ($(%A, 1), ($(%B, 2), super())) { default: $(%C, 3); }",
+		"try { $(%A, 1), ($(%B, 2), super()); } finally { $(%C, 3); }",
+		"(() => ($(%A, 1), ($(%B, 2), super())))(); $(%C, 3);",
+	} {
+		body := strings.NewReplacer("%A", p(), "%B", p(), "%C", p()).Replace(ctor)
+		add(fmt.Sprint("class:super-in-comma:", i), "() => { class A { constructor() { $("+p()+", \"A\", Object.keys(this)); } } class B extends A { x = "+P("1")+"; #y = "+P("2")+"; constructor() { "+body+" } get y() { return this.#y; } } var b = new B(); return [Object.keys(b), b.y]; }", false)
+	}
+	// optional chains whose base is a literal null/undefined (esbuild short-circuits them at compile time)
+	for _, base := range []string{"null", "undefined", "void 0", "(null)"} {
+		for i, form := range []string{"delete %B?.x", "delete %B?.[" + P(`"k"`) + "]", "delete %B?.a.b(" + P("1") + ")", "%B?.x", "%B?.[" + P(`"k"`) + "]", "%B?.(" + P("1") + ")", "typeof %B?.x", "%B?.x ?? " + P("5"),
+			"%B?.a.b.c", "delete (%B?.x)", "[delete %B?.x, typeof delete %B?.y]", "(%B?.x === void 0) + (delete %B?.x ? 10 : 20)", "%B?.a[" + P("1") + "](" + P("2") + ")"} {
+			add(fmt.Sprint("optchain:literal-base:", i), "() => "+strings.ReplaceAll(form, "%B", base), false)
+		}
+	}
 	add("class:field-define-semantics", "() => { class A { set x(v) { $("+p()+", \"setter\", v); } get ro() { return \"proto\"; } } class B extends A { x = 1; ro = 2; } var b = new B(); return [Object.getOwnPropertyDescriptor(b, \"x\"), b.ro]; }", false)
 	add("class:static-field-define", "() => { class A { static set x(v) { $("+p()+", \"setter\", v); } } class B extends A { static x = 1; } return Object.getOwnPropertyDescriptor(B, \"x\"); }", false)
 	add("class:field-this-arrow", "() => { class C { v = 1; f = () => this.v; static sf = () => this.name === void 0 ? 0 : typeof this; } var c = new C(), f = c.f; return [f(), C.sf()]; }", false)
